@@ -310,3 +310,74 @@ def c32(ctx):
 
     run_table(ctx, "SolicitHash", "solicithash", judge2, select=lambda cs: [c for c in cs if c["kind"] == "sess"])
     ctx.exhaustive = True
+
+
+def _envelope(ctx, prop):
+    ctx.assumptions = ["ideal encryption and ideal secret sharing (Envelope.tla); real keys, payloads and contexts in the executor",
+                       "bound: 3 recipient keys, 1-2 arbitrary grants or 3 grants with 1-2 shares and key lists from {}, {0}, {1}, {0,1}; thresholds 0-3; overrides 0-5"]
+    ctx.rule = ("configurations enumerated by TLC (26 688; C17 invariant checked on all of them), a seeded sample replayed: real BuildEnvelope, wire round trip, "
+                "UnlockEnvelope with every subset of the recipient keys plus an unrelated key; non-trivial = accepted configurations with >= 2 grants or an override")
+    n = 2500 if ctx.tier == "quick" else 20000
+
+    def select(cases):
+        return seeded_sample(ctx, cases, lambda c: False, n)
+
+    def judge(c, o):
+        cfg = c["cfg"]
+        if o.get("panic"):
+            return ("panic", "envelope build/unlock panicked: %s (%s)" % (o["panic"], cfg))
+        if prop == "C17":
+            if o["accepted"] and not c["accepts"]:
+                full = [r for e, r in zip(c["exp"], o.get("res", [])) if len(e["keys"]) == 3]
+                why = "override>placed" if cfg["o"] > sum((g["sc"] or 1) for g in cfg["g"]) else ("grant-without-keys" if any(not g["kp"] for g in cfg["g"]) else "other")
+                return ("accepted-unopenable:" + why, "BuildEnvelope accepted a configuration that all recipients together cannot open: %s (unlock with all keys: %s)" % (cfg, full))
+            if o["accepted"]:
+                for e, r in zip(c["exp"], o["res"]):
+                    if len(e["keys"]) == 3 and r["payload"] != "orig":
+                        return ("all-keys-cannot-open", "all recipient keys cannot open an accepted envelope: %s -> %s" % (cfg, r))
+            if not o["accepted"] and c["accepts"]:
+                return ("rejected-openable", "BuildEnvelope rejected a configuration the spec accepts: %s" % cfg)
+            return None
+        # C16
+        if not o["accepted"]:
+            return None
+        for e, r in zip(c["exp"], o["res"]):
+            x = e["r"]
+            if r["payload"] == "other":
+                return ("other-payload", "unlock returned a different payload: %s keys %s" % (cfg, e["keys"]))
+            if (r["payload"] == "orig") != x["opens"]:
+                return ("opens-mismatch:" + ("opened" if r["payload"] == "orig" else "refused"),
+                        "unlock with keys %s %s, spec says opens=%s (reach %d, need %d): %s" % (e["keys"], r, x["opens"], x["avail"], x["needed"], cfg))
+            if "avail" in r and (r["avail"] != x["avail"] or r["needed"] != x["needed"] or list(r["unlocked"]) != list(x["unlocked"]) or r["success"] != x["opens"]):
+                return ("result-fields", "unlock result %s differs from spec %s for keys %s of %s" % (r, x, e["keys"], cfg))
+        return None
+
+    run_table(ctx, "Envelope", "envelope", judge, select=select, timeout=3000,
+              nontrivial=lambda c, o: c["accepts"] and (len(c["cfg"]["g"]) >= 2 or c["cfg"]["o"] > 0))
+
+
+def c16(ctx):
+    _envelope(ctx, "C16")
+
+
+def c17(ctx):
+    _envelope(ctx, "C17")
+
+
+def c18(ctx):
+    ctx.assumptions = ["ideal encryption / secret sharing in EnvelopeTamper.tla; field and byte-level mutations applied at seeded positions (sampled, several repetitions per class)"]
+    ctx.rule = ("cases = base configuration x mutation class (threshold, grant order, keypair indexes, grant ciphertext, envelope id, context hash, payload "
+                "ciphertext, truncations, wire-level flips / garbage) x verifier context, enumerated by TLC, each replayed several times; non-trivial = every case with a mutation")
+
+    def judge(c, o):
+        i = c["in"]
+        if o.get("panic"):
+            return ("panic:" + i["mut"], "unseal panicked: %s (%s)" % (o["panic"], i))
+        for k, n in o["seen"].items():
+            if k == "other":
+                return ("other-payload:" + i["mut"], "unsealing a tampered envelope returned a different payload: %s" % i)
+            if k not in c["allowed"]:
+                return ("outcome:%s:%s:%s" % (i["mut"], i["vctx"], k), "outcome %s not allowed by the spec (%s) for %s" % (k, c["allowed"], i))
+        return None
+
+    run_table(ctx, "EnvelopeTamper", "envtamper", judge, nontrivial=lambda c, o: c["in"]["mut"] != "none", timeout=3000)
